@@ -987,6 +987,9 @@ func postprocessACLParts(c *cmd, parts []string) {
 				if replace, found := icmpTypeCodes[parts[0]]; found {
 					parts[0] = replace
 					parts = parts[1:]
+				} else if _, err := strconv.ParseUint(parts[0], 10, 8); err == nil {
+					// Skip numeric type, so that optional code is skipped below.
+					parts = parts[1:]
 				}
 			case "icmp6":
 				convNamed(icmp6Types)
